@@ -1,4 +1,6 @@
 import Morlock.Model.Sargon
+import Morlock.Spec.Pins
+import Morlock.Spec.Fen
 import Morlock.Model.BoardGame
 import Morlock.Driver.Game
 import Morlock.Driver.Score
@@ -66,6 +68,63 @@ def exchStr (pos : Position) (pins : Pins) (side : Color) (keys : Bool) : String
         | .ok l => exceptStr sideKeys (findSide l c)
       s!"{sq}:{v}:{fs cur}:{fs cur.opp}")
 
+def sortNats (l : List Nat) : List Nat := (l.toArray.qsort (· < ·)).toList
+
+def tripleLt (x y : Nat × Nat × Nat) : Bool :=
+  x.1 < y.1 || (x.1 == y.1 && (x.2.1 < y.2.1 || (x.2.1 == y.2.1 && x.2.2 < y.2.2)))
+
+def triplesStr (l : List (Nat × Nat × Nat)) : String :=
+  if l.isEmpty then "-" else
+    String.intercalate "," (((l.toArray.qsort tripleLt).toList).map fun e => s!"{e.1}/{e.2.1}/{e.2.2}")
+
+def natsStr (l : List Nat) : String := if l.isEmpty then "-" else String.intercalate "." ((sortNats l).map toString)
+
+def fpGroups : List (String × Color × Piece) :=
+  [("wK", .white, .king), ("wQ", .white, .queen), ("bK", .black, .king), ("bQ", .black, .queen)]
+
+/-- `eval.FindPins` for the four (side, piece) pairs SARGON asks for: sorted `attacker/pinned/target` -/
+def fpModel (pos : Position) : String :=
+  String.intercalate ";" (fpGroups.map fun (n, c, k) =>
+    n ++ ":" ++ triplesStr ((findPins pos c k).map fun pin => (pin.attacker, pin.pinned, pin.target)))
+
+def fpSpec (q : Spec.Pos) : String :=
+  String.intercalate ";" (fpGroups.map fun (n, c, k) =>
+    n ++ ":" ++ triplesStr (Spec.specPins q (absColor c) (kindOf' k)))
+where kindOf' : Piece → Spec.Kind
+  | .queen => .queen | _ => .king
+
+/-- the reference's king/queen pins as `(pinned, attacker)`, queen-on-queen pins omitted -/
+def kqPinsSpec (q : Spec.Pos) : Pins :=
+  ([Spec.Color.white, Spec.Color.black].flatMap fun c =>
+    [Spec.Kind.king, Spec.Kind.queen].flatMap fun k =>
+      (Spec.specPins q c k).filterMap fun (a, f, _) =>
+        match q.at a with
+        | some (_, ka) => if ka = k then none else some (f, a)
+        | none => some (f, a))
+
+/-- squares heading the stacks of `FindAttackers`, per square and side -/
+def dirModel (pos : Position) (pins : Pins) : String :=
+  String.intercalate "," ((List.range 64).filterMap fun sq =>
+    let one (c : Color) : String := exceptStr (fun l => natsStr (l.map fun a => a.front.square)) (findAttackers pos pins sq c)
+    let w := one .white
+    let b := one .black
+    if w == "-" && b == "-" then none else some s!"{sq}:{w}/{b}")
+
+def dirSpec (q : Spec.Pos) (pins : Pins) : String :=
+  String.intercalate "," ((List.range 64).filterMap fun sq =>
+    let one (c : Spec.Color) : String := natsStr (Spec.specDirect q (fun s => isPinnedFor pins s sq) sq c)
+    let w := one .white
+    let b := one .black
+    if w == "-" && b == "-" then none else some s!"{sq}:{w}/{b}")
+
+/-- the reference position after the moves (reference move generator and `apply`) -/
+def specAfter (q : Spec.Pos) : List String → Option Spec.Pos
+  | [] => some q
+  | m :: rest =>
+    match (Spec.legalMoves q).find? (fun sm => Spec.moveName sm == m) with
+    | none => none
+    | some sm => specAfter (Spec.apply q sm) rest
+
 def sargonGame (z : ZTable) (pts : Points) : Game World :=
   { boardGame z (fun _ _ => 0) with
     eval := fun w => match evaluate pts (BView.ofWorld w 0) with | .ok q => f32keyQ q | .error _ => 0 }
@@ -124,8 +183,23 @@ def sargonOp (st : DriverState) (args : List String) : String :=
             "mob=" ++ exceptStr (fun (x : Int) => toString x) (mobility v pins),
             s!"dev={development v}", s!"brdc0={pts.brdc0}",
             "pins=" ++ pinsStr pins,
+            "fp=" ++ fpModel v.pos,
+            "dir=" ++ dirModel v.pos pins,
             "att=" ++ attStr v.pos pins,
             "exch=" ++ exchStr v.pos pins v.turn.opp (!opts.contains "keys=0")]
+          -- the reference side: pins and direct attackers from `Spec/Pins.lean` on the reference position
+          let spec : Option String :=
+            match Spec.parseFen (joinSp fenToks) with
+            | none => none
+            | some sg =>
+              match specAfter sg.pos moves with
+              | none => none
+              | some sp =>
+                let spins := kqPinsSpec sp
+                some (joinSp (["points=*", "mtrl2=*", "ptschk=*", "brdc=*", "mob=*", "dev=*", "brdc0=*",
+                  "pins=" ++ pinsStr spins, "fp=" ++ fpSpec sp, "dir=" ++ dirSpec sp spins, "att=*", "exch=*"] ++
+                  (if qopt.isSome then ["q=*"] else [])))
+          (fun (model : String) => withSpec model spec) <|
           match qopt with
           | none => line
           | some q =>
